@@ -612,3 +612,590 @@ Definition all_iflags : list iflags :=
 Definition all_ing_scenarios : list ing_scenario :=
   flat_map (fun fl => flat_map (fun c => map (fun s => {| sc_flags := fl; sc_ctx := c; sc_shape := s |})
                                              all_ing_shapes) all_ctx) all_iflags.
+
+(* ================================================================== VirtualServer / VirtualServerRoute *)
+
+(* conf_v1.ActionProxy{RequestHeaders *ProxyRequestHeaders{Pass *bool}; ResponseHeaders *ProxyResponseHeaders} *)
+Record proxy := { px_req : option (option unit); px_resp : option unit }.
+(* conf_v1.Action{Pass string; Redirect *ActionRedirect; Return *ActionReturn; Proxy *ActionProxy} *)
+Record action := { a_pass : bool; a_redirect : option unit; a_return : option unit; a_proxy : option proxy }.
+(* conf_v1.Split{Weight; Action *Action} *)
+Record split := { sp_action : option action }.
+(* conf_v1.Match{Conditions []Condition; Action *Action; Splits []Split} *)
+Record mtch := { m_conds : nat; m_action : option action; m_splits : list split }.
+(* conf_v1.ErrorPage{Codes; Return *ErrorPageReturn; Redirect *ErrorPageRedirect} *)
+Record errpage := { ep_return : option unit; ep_redirect : option unit }.
+(* conf_v1.Route{Path; Route string; Action *Action; Splits; Matches; ErrorPages} *)
+Record route := { rt_action : option action; rt_splits : list split; rt_matches : list mtch;
+                  rt_errpages : list errpage; rt_route : bool }.
+
+Definition b2n (b : bool) : nat := if b then 1 else 0.
+Definition is_some {A} (o : option A) : bool := match o with Some _ => true | None => false end.
+
+(* --- pkg/apis/configuration/validation/virtualserver.go *)
+
+(* countActions / validateAction: exactly one of pass, redirect, return, proxy; the generated
+   values (referenced upstream, URL, body) are valid.  validateActionProxy looks at
+   p.RequestHeaders / p.ResponseHeaders only behind their nil checks. *)
+Definition count_actions (a : action) : nat :=
+  b2n (a_pass a) + b2n (is_some (a_redirect a)) + b2n (is_some (a_return a)) + b2n (is_some (a_proxy a)).
+Definition validate_action (a : action) : bool := negb (Nat.eqb (count_actions a) 1).
+
+(* validateSplits: at least 2; [s.Action == nil] -> Required, else validateAction; the
+   generated weights add up to 100 *)
+Definition validate_splits (l : list split) : bool :=
+  if Nat.ltb (List.length l) 2 then true
+  else existsb (fun s => match sp_action s with None => true | Some a => validate_action a end) l.
+
+(* validateMatch *)
+Definition validate_match (m : mtch) : bool :=
+  let e1 := Nat.eqb (m_conds m) 0 in
+  let e2 := match m_action m with Some a => validate_action a | None => false end in
+  let e3 := match m_splits m with [] => false | l => validate_splits l end in
+  let fc := b2n (is_some (m_action m)) + b2n (negb (Nat.eqb (List.length (m_splits m)) 0)) in
+  e1 || e2 || e3 || negb (Nat.eqb fc 1).
+
+(* validateErrorPage: exactly one of return / redirect (errorPageHasRequiredFields) *)
+Definition validate_errpage (e : errpage) : bool :=
+  negb (Nat.eqb (b2n (is_some (ep_return e)) + b2n (is_some (ep_redirect e))) 1).
+
+(* validateRoute(route, isRouteFieldForbidden) *)
+Definition validate_route (forbid_route : bool) (r : route) : bool :=
+  let e1 := match rt_action r with Some a => validate_action a | None => false end in
+  let e2 := match rt_splits r with [] => false | l => validate_splits l end in
+  let e3 := existsb validate_match (rt_matches r) in
+  let e4 := existsb validate_errpage (rt_errpages r) in
+  let e5 := rt_route r && forbid_route in
+  let fc := b2n (is_some (rt_action r)) + b2n (negb (Nat.eqb (List.length (rt_splits r)) 0)) +
+            b2n (rt_route r && negb forbid_route) in
+  e1 || e2 || e3 || e4 || e5 || negb (Nat.eqb fc 1).
+
+(* --- internal/configs/virtualserver.go (GenerateVirtualServerConfig) *)
+
+(* upstreamNamer.GetNameForUpstreamFromAction(action) starts with [action.Proxy];
+   generateLocation continues with action.Redirect / .Return / .Proxy; the generateProxy*
+   helpers test [proxy != nil && proxy.RequestHeaders != nil] before looking inside *)
+Definition gen_action (a : option action) : R unit := _ <- deref a ;; Val tt.
+
+(* generateSplits: every split's s.Action *)
+Definition gen_splits (l : list split) : R unit := for_all_unit (fun s => gen_action (sp_action s)) l.
+
+(* generateErrorPageLocations / generateErrorPages: [if e.Redirect != nil {...} else { e.Return.Code }] *)
+Definition gen_errpages (l : list errpage) : R unit :=
+  for_all_unit (fun e => match ep_redirect e with
+                         | Some _ => Val tt
+                         | None => _ <- deref (ep_return e) ;; Val tt
+                         end) l.
+
+(* one iteration of the route loop; [skip_ref]: a VirtualServer route that references a
+   VirtualServerRoute is skipped after its error pages were generated *)
+Definition gen_route (skip_ref : bool) (r : route) : R unit :=
+  _ <- gen_errpages (rt_errpages r) ;;
+  if rt_route r && skip_ref then Val tt
+  else
+    match rt_matches r with
+    | _ :: _ =>
+        (* generateMatchesConfig *)
+        _ <- for_all_unit (fun m => match m_splits m with
+                                    | [] => gen_action (m_action m)
+                                    | l => gen_splits l
+                                    end) (rt_matches r) ;;
+        match rt_splits r with
+        | [] => gen_action (rt_action r)
+        | l => gen_splits l
+        end
+    | [] =>
+        match rt_splits r with
+        | _ :: _ => gen_splits (rt_splits r)          (* generateDefaultSplitsConfig *)
+        | [] => gen_action (rt_action r)              (* GetNameForUpstreamFromAction(r.Action) *)
+        end
+    end.
+
+(* conf_v1.TLS{Secret; Redirect *TLSRedirect{Code *int}; CertManager *CertManager} *)
+Record vtls := { tl_secret : bool; tl_redirect : option (option unit); tl_cm : option unit }.
+
+(* validateTLS / validateTLSRedirect / validateTLSCmFields *)
+Definition validate_vtls (certmgr : bool) (t : option vtls) : bool :=
+  match t with
+  | None => false
+  | Some t =>
+      match tl_cm t with
+      | None => false
+      | Some _ => negb certmgr || negb (tl_secret t)
+      end
+  end.
+
+(* conf_v1.Upstream: the optional sub-objects *)
+Record upstream := {
+  u_health : option (option unit);   (* HealthCheck *HealthCheck{TLS *UpstreamTLS} *)
+  u_cookie : option unit;            (* SessionCookie *)
+  u_queue : option unit;             (* Queue *)
+  u_buffers : option unit;           (* ProxyBuffers *)
+  u_backup : bool;                   (* Backup != "" *)
+  u_backup_port : option unit;       (* BackupPort *uint16 *)
+  u_ints : option unit               (* MaxFails, MaxConns, Keepalive, ProxyBuffering pointers *)
+}.
+
+(* validateUpstreams for one upstream with valid values: rejectPlusResourcesInOSS and
+   validateBackup decide *)
+Definition validate_upstream (plus : bool) (u : upstream) : bool :=
+  let oss := negb plus && (is_some (u_health u) || is_some (u_cookie u) || is_some (u_queue u)) in
+  let bk := negb (Bool.eqb (u_backup u) (is_some (u_backup_port u))) in
+  oss || bk.
+
+(* generateBackupEndpointsForUpstream: [upstream.Backup == "" || upstream.BackupPort == nil] returns
+   before [*upstream.BackupPort]; generateHealthCheck: [upstream.HealthCheck == nil] returns,
+   [HealthCheck.TLS != nil] guards; the rest goes through nil-safe helpers *)
+Definition gen_upstream (u : upstream) : R unit :=
+  if negb (u_backup u) || negb (is_some (u_backup_port u)) then Val tt
+  else _ <- deref (u_backup_port u) ;; Val tt.
+
+(* a VirtualServer as far as the shape space varies it *)
+Record vserver_obj := {
+  vo_tls : option vtls;
+  vo_listener : option unit;          (* spec.listener *)
+  vo_upstreams : list upstream;
+  vo_routes : list route
+}.
+
+Definition validate_vs (plus certmgr : bool) (v : vserver_obj) : bool :=
+  validate_vtls certmgr (vo_tls v) ||
+  existsb (validate_upstream plus) (vo_upstreams v) ||
+  existsb (validate_route false) (vo_routes v).
+
+(* buildListenersForVSConfiguration: [vs.Spec.Listener == nil || c.globalConfiguration == nil]
+   returns before [vs.Spec.Listener.HTTP]; addWarningsForVirtualServersWithMissConfiguredListeners
+   tests [Spec.Listener != nil] *)
+Definition vs_listeners (gc : bool) (v : vserver_obj) : R unit :=
+  if negb (is_some (vo_listener v)) || negb gc then Val tt
+  else _ <- deref (vo_listener v) ;; Val tt.
+
+Definition gen_vs (v : vserver_obj) : R unit :=
+  _ <- for_all_unit gen_upstream (vo_upstreams v) ;;
+  for_all_unit (gen_route true) (vo_routes v).
+
+(* prior states for a VirtualServer: nothing; an older VirtualServer on the same host (the new
+   one does not get the host, so no configuration is generated for it); a GlobalConfiguration *)
+Inductive vctx := VCEmpty | VCOlder | VCGlobal.
+
+Record crd_obs := { c_validate : outcome; c_store : outcome; c_extend : outcome; c_delete : outcome }.
+
+Definition vs_observe (plus certmgr : bool) (c : vctx) (v : vserver_obj) : crd_obs :=
+  let rej := validate_vs plus certmgr v in
+  let gc := match c with VCGlobal => true | _ => false end in
+  let holds := match c with VCOlder => false | _ => true end in
+  let store := if rej then Val true else (_ <- vs_listeners gc v ;; Val false) in
+  {| c_validate := if rej then ORejected else OOk;
+     c_store := verdict store;
+     c_extend := match store with
+                 | Val false => if holds then unit_outcome (gen_vs v) else OOk
+                 | _ => OOk
+                 end;
+     c_delete := OOk |}.
+
+Definition crd_worst (o : crd_obs) : outcome :=
+  worst (c_validate o) (worst (c_store o) (worst (c_extend o) (c_delete o))).
+
+(* --- VirtualServerRoute: upstreams and subroutes (route references are forbidden) *)
+Record vsroute_obj := { vr_upstreams : list upstream; vr_subroutes : list route }.
+
+Definition validate_vsr (plus : bool) (v : vsroute_obj) : bool :=
+  existsb (validate_upstream plus) (vr_upstreams v) || existsb (validate_route true) (vr_subroutes v).
+
+Definition gen_vsr (v : vsroute_obj) : R unit :=
+  _ <- for_all_unit gen_upstream (vr_upstreams v) ;;
+  for_all_unit (gen_route false) (vr_subroutes v).
+
+(* prior states: no VirtualServer (the route is an orphan, nothing is generated); a
+   VirtualServer that references the route and holds the host *)
+Inductive rctx := RCOrphan | RCReferenced.
+
+Definition vsr_observe (plus : bool) (c : rctx) (v : vsroute_obj) : crd_obs :=
+  let rej := validate_vsr plus v in
+  {| c_validate := if rej then ORejected else OOk;
+     c_store := if rej then ORejected else OOk;
+     c_extend := if rej then OOk else
+                 match c with RCOrphan => OOk | RCReferenced => unit_outcome (gen_vsr v) end;
+     c_delete := OOk |}.
+
+(* --- the finite shape spaces *)
+
+Inductive act_sh := ActNil | ActEmpty | ActPass | ActRedirect | ActReturn | ActProxy
+                  | ActProxyHdr | ActProxyHdrPass | ActTwo.
+Definition action_of (a : act_sh) : option action :=
+  let mk p rd rt px := Some {| a_pass := p; a_redirect := rd; a_return := rt; a_proxy := px |} in
+  match a with
+  | ActNil => None
+  | ActEmpty => mk false None None None
+  | ActPass => mk true None None None
+  | ActRedirect => mk false (Some tt) None None
+  | ActReturn => mk false None (Some tt) None
+  | ActProxy => mk false None None (Some {| px_req := None; px_resp := None |})
+  | ActProxyHdr => mk false None None (Some {| px_req := Some None; px_resp := Some tt |})
+  | ActProxyHdrPass => mk false None None (Some {| px_req := Some (Some tt); px_resp := Some tt |})
+  | ActTwo => mk true (Some tt) None None
+  end.
+
+(* the action of a split or of a match: nil, pass, return *)
+Inductive act2_sh := A2Nil | A2Pass | A2Return.
+Definition action2_of (a : act2_sh) : option action :=
+  match a with A2Nil => None | A2Pass => action_of ActPass | A2Return => action_of ActReturn end.
+
+Inductive splits_sh := Sp0 | Sp1 | Sp2 (a b : act2_sh).
+Definition splits_of (s : splits_sh) : list split :=
+  match s with
+  | Sp0 => []
+  | Sp1 => [{| sp_action := action_of ActPass |}]
+  | Sp2 a b => [{| sp_action := action2_of a |}; {| sp_action := action2_of b |}]
+  end.
+
+(* splits inside a match: none, two with actions, two of which the first has no action *)
+Inductive msplits_sh := MS0 | MS2 | MS2Nil.
+Definition msplits_of (s : msplits_sh) : list split :=
+  match s with
+  | MS0 => []
+  | MS2 => splits_of (Sp2 A2Pass A2Pass)
+  | MS2Nil => splits_of (Sp2 A2Nil A2Pass)
+  end.
+
+Inductive match_sh := Mt0 | Mt1 (conds : bool) (a : bool) (s : msplits_sh).
+Definition matches_of (m : match_sh) : list mtch :=
+  match m with
+  | Mt0 => []
+  | Mt1 c a s => [{| m_conds := b2n c; m_action := if a then action_of ActPass else None;
+                     m_splits := msplits_of s |}]
+  end.
+
+Inductive errpage_sh := Ep0 | Ep1 (ret red : bool).
+Definition errpages_of (e : errpage_sh) : list errpage :=
+  match e with
+  | Ep0 => []
+  | Ep1 a b => [{| ep_return := if a then Some tt else None; ep_redirect := if b then Some tt else None |}]
+  end.
+
+Record route_sh := { rs_action : act_sh; rs_splits : splits_sh; rs_matches : match_sh;
+                     rs_errpages : errpage_sh; rs_route : bool }.
+Definition route_of (r : route_sh) : route :=
+  {| rt_action := action_of (rs_action r); rt_splits := splits_of (rs_splits r);
+     rt_matches := matches_of (rs_matches r); rt_errpages := errpages_of (rs_errpages r);
+     rt_route := rs_route r |}.
+
+Inductive tls_sh := Tl0 | Tl1 (secret : bool) (redirect : option bool) (cm : bool).
+Definition tls_of (t : tls_sh) : option vtls :=
+  match t with
+  | Tl0 => None
+  | Tl1 s r c => Some {| tl_secret := s;
+                         tl_redirect := option_map (fun b : bool => if b then Some tt else None) r;
+                         tl_cm := if c then Some tt else None |}
+  end.
+
+Inductive up_sh := UpBare | UpHealth (tls : bool) | UpCookie | UpQueue | UpBuffers | UpBackup
+                 | UpBackupNameOnly | UpBackupPortOnly | UpInts.
+Definition upstream_of (u : up_sh) : upstream :=
+  let mk h c q b bk bp i := {| u_health := h; u_cookie := c; u_queue := q; u_buffers := b;
+                               u_backup := bk; u_backup_port := bp; u_ints := i |} in
+  match u with
+  | UpBare => mk None None None None false None None
+  | UpHealth t => mk (Some (if t then Some tt else None)) None None None false None None
+  | UpCookie => mk None (Some tt) None None false None None
+  | UpQueue => mk None None (Some tt) None false None None
+  | UpBuffers => mk None None None (Some tt) false None None
+  | UpBackup => mk None None None None true (Some tt) None
+  | UpBackupNameOnly => mk None None None None true None None
+  | UpBackupPortOnly => mk None None None None false (Some tt) None
+  | UpInts => mk None None None None false None (Some tt)
+  end.
+
+Definition pass_route : route := route_of {| rs_action := ActPass; rs_splits := Sp0; rs_matches := Mt0;
+                                             rs_errpages := Ep0; rs_route := false |}.
+
+(* a VirtualServer shape varies one sub-object around a valid base (one upstream "u", one
+   route that passes to it) *)
+Inductive vs_shape := VsBare | VsRoute (r : route_sh) | VsTls (t : tls_sh) (listener : bool) | VsUp (u : up_sh).
+Definition vs_of (s : vs_shape) : vserver_obj :=
+  match s with
+  | VsBare => {| vo_tls := None; vo_listener := None; vo_upstreams := []; vo_routes := [] |}
+  | VsRoute r => {| vo_tls := None; vo_listener := None; vo_upstreams := [upstream_of UpBare];
+                    vo_routes := [route_of r] |}
+  | VsTls t l => {| vo_tls := tls_of t; vo_listener := if l then Some tt else None;
+                    vo_upstreams := [upstream_of UpBare]; vo_routes := [pass_route] |}
+  | VsUp u => {| vo_tls := None; vo_listener := None; vo_upstreams := [upstream_of u];
+                 vo_routes := [pass_route] |}
+  end.
+
+Inductive vsr_shape := VrBare | VrRoute (r : route_sh) | VrUp (u : up_sh).
+Definition vsr_of (s : vsr_shape) : vsroute_obj :=
+  match s with
+  | VrBare => {| vr_upstreams := []; vr_subroutes := [] |}
+  | VrRoute r => {| vr_upstreams := [upstream_of UpBare]; vr_subroutes := [route_of r] |}
+  | VrUp u => {| vr_upstreams := [upstream_of u]; vr_subroutes := [pass_route] |}
+  end.
+
+Definition all_act_sh := [ActNil; ActEmpty; ActPass; ActRedirect; ActReturn; ActProxy; ActProxyHdr; ActProxyHdrPass; ActTwo].
+Definition all_act2_sh := [A2Nil; A2Pass; A2Return].
+Definition all_splits_sh := Sp0 :: Sp1 :: flat_map (fun a => map (Sp2 a) all_act2_sh) all_act2_sh.
+Definition all_msplits_sh := [MS0; MS2; MS2Nil].
+Definition all_match_sh :=
+  Mt0 :: flat_map (fun c => flat_map (fun a => map (Mt1 c a) all_msplits_sh) all_bool) all_bool.
+Definition all_errpage_sh := Ep0 :: flat_map (fun a => map (Ep1 a) all_bool) all_bool.
+Definition all_route_sh : list route_sh :=
+  flat_map (fun a => flat_map (fun s => flat_map (fun m => flat_map (fun e =>
+    map (fun r => {| rs_action := a; rs_splits := s; rs_matches := m; rs_errpages := e; rs_route := r |})
+        all_bool) all_errpage_sh) all_match_sh) all_splits_sh) all_act_sh.
+Definition all_optbool : list (option bool) := [None; Some false; Some true].
+Definition all_tls_sh : list tls_sh :=
+  Tl0 :: flat_map (fun s => flat_map (fun r => map (Tl1 s r) all_bool) all_optbool) all_bool.
+Definition all_up_sh := [UpBare; UpHealth false; UpHealth true; UpCookie; UpQueue; UpBuffers; UpBackup;
+                         UpBackupNameOnly; UpBackupPortOnly; UpInts].
+Definition all_vs_shapes : list vs_shape :=
+  VsBare :: map VsRoute all_route_sh ++ flat_map (fun t => map (VsTls t) all_bool) all_tls_sh ++ map VsUp all_up_sh.
+Definition all_vsr_shapes : list vsr_shape := VrBare :: map VrRoute all_route_sh ++ map VrUp all_up_sh.
+Definition all_vctx := [VCEmpty; VCOlder; VCGlobal].
+Definition all_rctx := [RCOrphan; RCReferenced].
+
+(* every shape of these two spaces is admitted by the CRD schemas (no field the spaces vary is
+   `required`; checked against config/crd/bases by the harness with the structural-schema validator) *)
+
+(* ================================================================== TransportServer *)
+
+Inductive ts_listener := TLTcp | TLUdp | TLPassthrough.
+(* conf_v1.TransportServerSpec: TLS *TransportServerTLS; UpstreamParameters *UpstreamParameters{UDPRequests *int ...};
+   SessionParameters *SessionParameters; Action *TransportServerAction; upstream HealthCheck *{Match *} *)
+Record tserver := {
+  t_listener : ts_listener;
+  t_host : bool;
+  t_tls : option bool;                    (* nil | Some (secret != "") *)
+  t_upstreams : list (option (option unit));   (* per upstream: HealthCheck nil | Some (Match nil | Some) *)
+  t_uparams : option bool;                (* nil | Some (udp pointers set) *)
+  t_sparams : option unit;
+  t_action : option bool                  (* nil | Some (pass != "") *)
+}.
+
+(* validateTransportServerSpec *)
+Definition validate_ts (tlspass : bool) (t : tserver) : bool :=
+  let pt := match t_listener t with TLPassthrough => true | _ => false end in
+  let udp := match t_listener t with TLUdp => true | _ => false end in
+  let tls_secret := match t_tls t with Some true => true | _ => false end in
+  let e_listener := pt && negb tlspass in
+  let e_host :=
+      if udp then t_host t
+      else if t_host t then (if negb pt then negb tls_secret else tls_secret)
+      else pt in
+  let e_up := match t_uparams t with Some true => negb udp | _ => false end in
+  let e_action := match t_action t with
+                  | None => true
+                  | Some false => true
+                  | Some true => match t_upstreams t with [] => true | _ => false end
+                  end in
+  let e_tls := if pt then is_some (t_tls t)
+               else if t_host t then negb tls_secret else false in
+  e_listener || e_host || e_up || e_action || e_tls.
+
+(* generateTransportServerConfig: [Spec.Action.Pass] first; UpstreamParameters / SessionParameters /
+   HealthCheck / HealthCheck.Match behind nil checks *)
+Definition gen_ts (t : tserver) : R unit := _ <- deref (t_action t) ;; Val tt.
+
+(* prior states: no GlobalConfiguration (a TCP/UDP TransportServer has no listener, nothing is
+   generated for it); a GlobalConfiguration with a TCP and a UDP listener *)
+Inductive tctx := TCEmpty | TCGlobal.
+
+Definition ts_active (tlspass : bool) (c : tctx) (t : tserver) : bool :=
+  match t_listener t with
+  | TLPassthrough => tlspass
+  | _ => match c with TCGlobal => true | TCEmpty => false end
+  end.
+
+Definition ts_observe (tlspass : bool) (c : tctx) (t : tserver) : crd_obs :=
+  let rej := validate_ts tlspass t in
+  {| c_validate := if rej then ORejected else OOk;
+     c_store := if rej then ORejected else OOk;
+     c_extend := if rej then OOk else if ts_active tlspass c t then unit_outcome (gen_ts t) else OOk;
+     c_delete := OOk |}.
+
+Inductive tsup_sh := TU0 | TU1 (hc : option bool).
+Record ts_shape := { tsh_listener : ts_listener; tsh_host : bool; tsh_tls : option bool; tsh_up : tsup_sh;
+                     tsh_uparams : option bool; tsh_sparams : bool; tsh_action : option bool }.
+Definition ts_of (s : ts_shape) : tserver :=
+  {| t_listener := tsh_listener s; t_host := tsh_host s; t_tls := tsh_tls s;
+     t_upstreams := match tsh_up s with
+                    | TU0 => []
+                    | TU1 h => [option_map (fun b : bool => if b then Some tt else None) h]
+                    end;
+     t_uparams := tsh_uparams s;
+     t_sparams := if tsh_sparams s then Some tt else None;
+     t_action := tsh_action s |}.
+
+Definition all_ts_listener := [TLTcp; TLUdp; TLPassthrough].
+Definition all_tsup_sh := TU0 :: map TU1 all_optbool.
+Definition all_ts_shapes : list ts_shape :=
+  flat_map (fun l => flat_map (fun h => flat_map (fun t => flat_map (fun u => flat_map (fun p =>
+    flat_map (fun s => map (fun a =>
+      {| tsh_listener := l; tsh_host := h; tsh_tls := t; tsh_up := u; tsh_uparams := p;
+         tsh_sparams := s; tsh_action := a |}) all_optbool) all_bool) all_optbool) all_tsup_sh)
+    all_optbool) all_bool) all_ts_listener.
+Definition all_tctx := [TCEmpty; TCGlobal].
+
+(* the CRD marks spec.action and spec.listener... as optional; `upstreams` items require name,
+   service, port (the shapes always set them) *)
+
+(* ================================================================== Policy *)
+
+(* conf_v1.RateLimit{Delay, Burst, RejectCode *int; NoDelay, DryRun *bool; Condition *RateLimitCondition{JWT *JWTCondition}} *)
+Record ratelimit := { rl_ptrs : option unit; rl_cond : option (option unit) }.
+(* conf_v1.APIKey{SuppliedIn *SuppliedIn{Header, Query []string}} *)
+Record apikey := { ak_supplied : option (bool * bool) }.
+(* conf_v1.WAF{SecurityLog *SecurityLog; SecurityLogs []*SecurityLog} *)
+Record waf := { wf_log : option unit; wf_logs : option (list (option unit)) }.
+
+Inductive polkind :=
+| PkAccess (allow deny : bool)
+| PkRate (r : ratelimit)
+| PkJwt
+| PkBasic
+| PkIngressMTLS (depth : option unit)
+| PkEgressMTLS (depth : option unit)
+| PkOidc (leeway : option unit)
+| PkApiKey (k : apikey)
+| PkWaf (w : waf).
+
+(* a PolicySpec: the sub-specs that are set, in the order validatePolicySpec visits them *)
+Definition policy := list polkind.
+
+(* order in which validatePolicySpec visits the sub-specs *)
+Definition pk_rank (k : polkind) : nat :=
+  match k with
+  | PkAccess _ _ => 0 | PkRate _ => 1 | PkJwt => 2 | PkBasic => 3 | PkIngressMTLS _ => 4
+  | PkEgressMTLS _ => 5 | PkOidc _ => 6 | PkApiKey _ => 7 | PkWaf _ => 8
+  end.
+
+(* validatePolicySpec over the sub-specs in visiting order; returns (errors so far, early return) *)
+Definition validate_polkind (plus approtect oidc : bool) (k : polkind) : bool * bool :=
+  match k with
+  | PkAccess a d => (negb (Nat.eqb (b2n a + b2n d) 1), false)
+  | PkRate r =>
+      ((match rl_cond r with Some None => true | _ => false end) ||
+       (match rl_cond r with Some (Some _) => negb plus | _ => false end), false)
+  | PkJwt => if negb plus then (true, true) else (false, false)
+  | PkBasic => (false, false)
+  | PkIngressMTLS _ => (false, false)
+  | PkEgressMTLS _ => (false, false)
+  | PkOidc _ => if negb plus then (true, true) else (negb oidc, false)
+  | PkApiKey k =>
+      (match ak_supplied k with
+       | None => true
+       | Some (h, q) => negb h && negb q
+       end, false)
+  | PkWaf w => (negb plus || negb approtect, false)
+  end.
+
+Fixpoint validate_policy_go (plus approtect oidc : bool) (l : list polkind) (errs : bool) (n : nat) : bool :=
+  match l with
+  | [] => errs || negb (Nat.eqb n 1)
+  | k :: t =>
+      let '(e, ret) := validate_polkind plus approtect oidc k in
+      if ret then true else validate_policy_go plus approtect oidc t (errs || e) (S n)
+  end.
+
+Definition validate_policy (plus approtect oidc : bool) (p : policy) : bool :=
+  validate_policy_go plus approtect oidc p false 0.
+
+(* generatePolicies: the first sub-spec that is set decides (switch); the add*Config functions:
+   addRateLimitConfig: [rateLimit.Condition != nil && rateLimit.Condition.JWT.Claim != ""];
+   generateLimitReq: Burst / Delay behind nil checks;
+   addAPIKeyConfig: [apiKey.SuppliedIn.Header]; addIngressMTLSConfig: VerifyDepth behind a nil check;
+   addWAFConfig: [range waf.SecurityLogs { loco.LogDest }] after appending SecurityLog *)
+Definition gen_polkind (k : polkind) : R unit :=
+  match k with
+  | PkRate r =>
+      match rl_cond r with
+      | None => Val tt
+      | Some j => _ <- deref j ;; Val tt
+      end
+  | PkApiKey k => _ <- deref (ak_supplied k) ;; Val tt
+  | PkWaf w =>
+      let logs := match wf_log w, wf_logs w with
+                  | Some x, None => [Some x]
+                  | _, Some l => l
+                  | None, None => []
+                  end in
+      for_all_unit (fun l => _ <- deref l ;; Val tt) logs
+  | _ => Val tt
+  end.
+
+Definition gen_policy (p : policy) : R unit :=
+  match p with
+  | [] => Val tt
+  | k :: _ => gen_polkind k
+  end.
+
+(* the Policy pipeline: ValidatePolicy; a VirtualServer that references the policy at spec and
+   route level is stored, extended (getPolicies validates again) and generated *)
+Record pol_obs := { po_validate : outcome; po_extend : outcome }.
+
+Definition pol_observe (plus approtect : bool) (p : policy) : pol_obs :=
+  let rej := validate_policy plus approtect plus p in
+  {| po_validate := if rej then ORejected else OOk;
+     po_extend := if rej then OOk else unit_outcome (gen_policy p) |}.
+
+Inductive rl_sh := Rl (ptrs : bool) (cond : option bool).
+Inductive ak_sh := Ak0 | Ak1 (h q : bool).
+Inductive waf_sh := Wf (log : bool) (logs : option bool).   (* securityLogs: nil | [] | [one] *)
+Inductive polkind_sh :=
+| KAccess (a d : bool) | KRate (r : rl_sh) | KJwt | KBasic | KIngressMTLS (d : bool) | KEgressMTLS (d : bool)
+| KOidc (l : bool) | KApiKey (k : ak_sh) | KWaf (w : waf_sh).
+(* a policy with no sub-spec, one, or accessControl.allow together with a second one *)
+Inductive pol_shape := Po0 | Po1 (k : polkind_sh) | Po2 (k : polkind_sh).
+
+Definition ou (b : bool) : option unit := if b then Some tt else None.
+Definition polkind_of (k : polkind_sh) : polkind :=
+  match k with
+  | KAccess a d => PkAccess a d
+  | KRate (Rl p c) => PkRate {| rl_ptrs := ou p; rl_cond := option_map ou c |}
+  | KJwt => PkJwt
+  | KBasic => PkBasic
+  | KIngressMTLS d => PkIngressMTLS (ou d)
+  | KEgressMTLS d => PkEgressMTLS (ou d)
+  | KOidc l => PkOidc (ou l)
+  | KApiKey Ak0 => PkApiKey {| ak_supplied := None |}
+  | KApiKey (Ak1 h q) => PkApiKey {| ak_supplied := Some (h, q) |}
+  | KWaf (Wf l ls) => PkWaf {| wf_log := ou l;
+                               wf_logs := option_map (fun b : bool => if b then [Some tt] else []) ls |}
+  end.
+
+Definition policy_of (s : pol_shape) : policy :=
+  match s with
+  | Po0 => []
+  | Po1 k => [polkind_of k]
+  | Po2 k => match k with
+             | KAccess _ _ => [polkind_of k; PkRate {| rl_ptrs := None; rl_cond := None |}]
+             | _ => [PkAccess true false; polkind_of k]
+             end
+  end.
+
+Definition all_rl_sh := flat_map (fun p => map (Rl p) all_optbool) all_bool.
+Definition all_ak_sh := Ak0 :: flat_map (fun h => map (Ak1 h) all_bool) all_bool.
+Definition all_waf_sh := flat_map (fun l => map (Wf l) all_optbool) all_bool.
+Definition all_polkind_sh : list polkind_sh :=
+  flat_map (fun a => map (KAccess a) all_bool) all_bool ++ map KRate all_rl_sh ++ [KJwt; KBasic] ++
+  map KIngressMTLS all_bool ++ map KEgressMTLS all_bool ++ map KOidc all_bool ++
+  map KApiKey all_ak_sh ++ map KWaf all_waf_sh.
+Definition all_pol_shapes : list pol_shape := Po0 :: map Po1 all_polkind_sh ++ map Po2 all_polkind_sh.
+
+(* ================================================================== GlobalConfiguration *)
+
+(* GlobalConfigurationSpec{Listeners []Listener}: no pointers.  The shape space varies the
+   list: empty; one valid; one with a forbidden port; a valid one and a duplicate of its name;
+   a TCP and a UDP listener (the two the TransportServer shapes name). *)
+Inductive gc_shape := Gc0 | Gc1 | Gc1Bad | Gc2Dup | Gc2.
+
+Definition validate_gc (g : gc_shape) : bool :=
+  match g with Gc1Bad | Gc2Dup => true | _ => false end.
+
+(* AddOrUpdateGlobalConfiguration keeps the valid listeners and reports the error; nothing
+   dereferences an optional pointer *)
+Definition gc_observe (g : gc_shape) : crd_obs :=
+  let rej := validate_gc g in
+  {| c_validate := if rej then ORejected else OOk; c_store := if rej then ORejected else OOk;
+     c_extend := OOk; c_delete := OOk |}.
+
+Definition all_gc_shapes := [Gc0; Gc1; Gc1Bad; Gc2Dup; Gc2].
